@@ -104,6 +104,10 @@ def run(chk):
                 r = do_parse(t)
                 if not (isinstance(r, AObj) and r.cls is P):
                     chk.fail("R18.2", f"{PFN}:choice", f"Platform.parse({t!r}) returns {r!r}")
+                elif "X_Y" in c and it.to_str(r) != t:
+                    # a fully spelled-out family name is its own canonical text: parse must keep family, version and architecture
+                    chk.fail("R18.2", f"{PFN}:choice:faithful", f"Platform.parse({t!r}) is {it.to_str(r)!r}: family, version or architecture not kept "
+                             f"(names of different families with the same X_Y are parsed in sequence)")
                 else:
                     chk.ok("R18.2", key=t)
             except PyRaise as e:
